@@ -47,38 +47,54 @@ func fpIsInf(bits *Term) *Term { return FPOp("fp.isInfinite", BoolSort, toFP(bit
 
 func fpConst64(f float64) *Term { return toFP(BVU(f64bits(f), 64)) }
 
-// fpToInt models float -> integer conversion: exact (truncation toward zero) when the truncated
-// value is representable in the destination, otherwise an unconstrained result (Go leaves it
-// implementation-defined; every implementation is covered).
+// cvtt models the x86 CVTTSD2SQ / CVTTSD2SL instruction on a float64 x: truncation toward zero
+// when the result fits the signed w-bit destination, the "integer indefinite" value 0x80..0
+// otherwise (NaN included). w is 32 or 64.
+func cvtt(x *Term, w int, assume func(*Term)) *Term {
+	pow := func(k int) float64 { return math.Ldexp(1, k) }
+	hi := fpConst64(pow(w - 1))
+	var inRange *Term
+	if w == 64 {
+		inRange = And(FPOp("fp.geq", BoolSort, x, fpConst64(-pow(63))), FPOp("fp.lt", BoolSort, x, hi))
+	} else {
+		inRange = And(FPOp("fp.gt", BoolSort, x, fpConst64(-pow(w-1)-1)), FPOp("fp.lt", BoolSort, x, hi))
+	}
+	r := App(fmt.Sprintf("cvtt%d", w), BV(w), x)
+	assume(Implies(inRange, Eq(r, FPOp(fmt.Sprintf("(_ fp.to_sbv %d)", w), BV(w), RTZ, x))))
+	assume(Implies(Not(inRange), Eq(r, BVConst(bigPow2(w-1), w))))
+	return r
+}
+
+// fpToInt models Go's float -> integer conversion as compiled for amd64 (assumption A-FPCONV):
+//   int64:          CVTTSD2SQ
+//   int32/16/8:     CVTTSD2SL, then truncation
+//   uint32:         CVTTSD2SQ, then truncation
+//   uint16/8:       CVTTSD2SL, then truncation
+//   uint64:         x < 2^63 ? CVTTSD2SQ(x) : CVTTSD2SQ(x - 2^63) ^ 0x8000000000000000
+// Exact (truncation toward zero) whenever the truncated value is representable; the
+// out-of-range results are the ones the hardware produces.
 func fpToInt(bits *Term, fw, tw int, signed bool, assume func(*Term)) *Term {
 	x := toFP(bits)
 	if fw == 32 {
 		x = FPOp("(_ to_fp 11 53)", FP64, RNE, x)
 	}
-	var lo, hi *Term // lo < x (or lo <= x) && x < hi
-	pow := func(k int) float64 { return math.Ldexp(1, k) }
-	var inRange *Term
-	if signed {
-		hi = fpConst64(pow(tw - 1))
-		if tw == 64 {
-			lo = fpConst64(-pow(63))
-			inRange = And(FPOp("fp.geq", BoolSort, x, lo), FPOp("fp.lt", BoolSort, x, hi))
-		} else {
-			lo = fpConst64(-pow(tw-1) - 1)
-			inRange = And(FPOp("fp.gt", BoolSort, x, lo), FPOp("fp.lt", BoolSort, x, hi))
-		}
-	} else {
-		hi = fpConst64(pow(tw))
-		lo = fpConst64(-1)
-		inRange = And(FPOp("fp.gt", BoolSort, x, lo), FPOp("fp.lt", BoolSort, x, hi))
+	switch {
+	case signed && tw == 64:
+		return cvtt(x, 64, assume)
+	case signed:
+		return Extract(tw-1, 0, cvtt(x, 32, assume))
+	case tw == 64:
+		two63 := fpConst64(math.Ldexp(1, 63))
+		small := FPOp("fp.lt", BoolSort, x, two63)
+		a := cvtt(x, 64, assume)
+		shifted := FPOp("fp.sub", FP64, RNE, x, two63)
+		b := BVBin("bvxor", cvtt(shifted, 64, assume), BVConst(bigPow2(63), 64))
+		return Ite(small, a, b)
+	case tw == 32:
+		return Extract(31, 0, cvtt(x, 64, assume))
+	default:
+		return Extract(tw-1, 0, cvtt(x, 32, assume))
 	}
-	r := Fresh("fp2int", BV(tw))
-	op := fmt.Sprintf("(_ fp.to_ubv %d)", tw)
-	if signed {
-		op = fmt.Sprintf("(_ fp.to_sbv %d)", tw)
-	}
-	assume(Implies(inRange, Eq(r, FPOp(op, BV(tw), RTZ, x))))
-	return r
 }
 
 // ---------------------------------------------------------------------------------------------
